@@ -68,6 +68,13 @@ CHECKS = {
             "probes; all schedules of 2 interleaved calls with <=2 (thorough 3) switches over 6 (9) probes (quick "
             "replays a seeded sample of 6000 schedules); 4 import orders x up to 4 hash seeds.",
             "Trusted: the hand-off harness; spec outcome per probe from Lex.tla/OData.tla."),
+    "C14": ("DESIGN.md 6/C14",
+            "TLC enumerates (tree, alias map) pairs (MC_C14) and computes the expected tree with the TLA+ substitution "
+            "operator Rewrite!Subst (identity/bijection laws checked as invariants); replayed into AliasRewriter",
+            "Exhaustive within bounds: all trees with <=1 (thorough 2) operator/bracket nodes over 20 colliding atoms x "
+            "17 adversarial alias maps; result, input immutability, repeatability (fresh/reused/shared rewriter) and "
+            "the bijection inverse are checked on the real code.",
+            "Trusted: spec/Rewrite.tla; harness/project.py."),
 }
 
 PENDING = ["C01", "C02", "C03", "C04", "C06", "C07", "C08", "C09", "C10", "C11", "C12", "C13", "C14", "C15",
